@@ -30,6 +30,8 @@ FINDING_TRIGGERS = {
     "value_function_with_single_call_site_inside_function",
     "name_bound_to_enum_or_structure_and_rebound",
     "math_function_of_hash",
+    "local_bound_outside_nested_loops_read_in_inner_loop",
+    "stack_object_from_register_ref_id",
 }
 
 # hazards = generator switches that trigger a known defect of the pinned tree
